@@ -1065,8 +1065,15 @@ package schema
 // Strengthened after the second round of independent seeded changes
 // ---------------------------------------------------------------------------------------------
 
-// C02: the any schema range-checks uint64 like the integer schema does (no silent wrap to a negative number)
+// C02: the any schema range-checks uint64 like the integer schema does (no silent wrap to a negative number), and
+// accepts a list / map exactly when it accepts every item / every key and every value
+//@ abstract anyOK(d any) bool
 //@ func AnySchema.checkAndConvert(a, data) -> res, err
+//@   names (err == nil) == anyOK(data)
+//@   ensures kindOf(data) == KindSlice ==> ((err == nil) == (forall j int :: 0 <= j && j < listLen(data) ==> anyOK(listItem(data, j))))
+//@   ensures kindOf(data) == KindMap ==> ((err == nil) == (forall j int :: 0 <= j && j < listLen(data) ==> anyOK(mapKey(data, j)) && anyOK(mapEntryVal(data, j))))
+//@   loop 1 invariant 0 <= i && (forall j int :: 0 <= j && j < i ==> anyOK(listItem(data, j)))
+//@   loop 2 invariant forall j int :: 0 <= j && j <= idx ==> anyOK(mapKey(data, j)) && anyOK(mapEntryVal(data, j))
 //@   ensures typeOf(data) == type(uint64) && data.(uint64) > 9223372036854775807 ==> err != nil
 //@   ensures typeOf(data) == type(uint64) && data.(uint64) <= 9223372036854775807 ==> err == nil && res == any(int64(data.(uint64)))
 //@   ensures typeOf(data) == type(int64) ==> err == nil && res == data
